@@ -133,7 +133,20 @@ def classify(e):
         if isinstance(m, NARY) and len(m.children) == 1:
             return "roundtrip:single-operand-nary", m
         return "roundtrip:nary-reparses-nested", m
-    return f"roundtrip:{kind(m)}>{offender(m)}", m
+    off = offender(m)
+    # a child of the parent's own n-ary class prints without parentheses, i.e. exactly like the
+    # parent with that child's operands spliced in: name the operand that really breaks the text
+    for _ in range(8):
+        if not (isinstance(m, NARY) and off == kind(m)):
+            break
+        spliced = []
+        for c in m.children:
+            spliced.extend(c.children if type(c) is type(m) else [c])
+        m2 = type(m)(tuple(spliced))
+        if to_str(m2) != to_str(m) or not hard_problem(m2):
+            break
+        off = offender(m2)
+    return f"roundtrip:{kind(m)}>{off}", m
 
 
 def replace_child(m, old, new):
